@@ -21,9 +21,16 @@ for sid in sorted(M):
     rows.append(f'| `{sid}` | {kind} | ' + '<br>'.join(cells) + ' |')
 table = '| seeded change | origin | quick check(s) run against it |\n|---|---|---|\n' + '\n'.join(rows)
 n = len(M)
-det = sum(1 for sid, res in M.items() if any(isinstance(r, dict) and r['exit'] == 1 for r in res.values()))
+def _benign(sid):
+    mp = os.path.join(VERIF, 'seeded', sid, 'meta.json')
+    return os.path.exists(mp) and json.load(open(mp)).get('kind') == 'benign'
+
+
+nb = sum(1 for sid in M if _benign(sid))
+quiet = sum(1 for sid, res in M.items() if _benign(sid) and all(isinstance(r, dict) and r['exit'] == 0 for r in res.values()))
+det = sum(1 for sid, res in M.items() if not _benign(sid) and any(isinstance(r, dict) and r['exit'] == 1 for r in res.values()))
 p = os.path.join(VERIF, 'DESIGN.md')
 s = open(p).read()
-s = re.sub(r'<!-- MATRIX:BEGIN -->.*<!-- MATRIX:END -->', lambda m: f'<!-- MATRIX:BEGIN -->\n{n} seeded changes, {det} reported as VIOLATION by at least one of the listed checks.\n\n{table}\n<!-- MATRIX:END -->', s, flags=re.S)
+s = re.sub(r'<!-- MATRIX:BEGIN -->.*<!-- MATRIX:END -->', lambda m: f'<!-- MATRIX:BEGIN -->\n{n - nb} breaking changes, {det} reported as VIOLATION by at least one of the listed checks; {nb} benign controls, {quiet} of them quiet (exit 0) on every listed check.\n\n{table}\n<!-- MATRIX:END -->', s, flags=re.S)
 open(p, 'w').write(s)
 print(n, det)
